@@ -29,6 +29,7 @@ type inliner struct {
 	stack    map[*types.Func]bool
 	ntmp     int
 	doneLits map[*ast.FuncLit]bool
+	unified  map[*types.Var]ast.Expr // named results of the helper being expanded that are the caller's own target variables
 }
 
 // inlinable reports whether fo is a module function with a body that is not part of the reference tree.
@@ -199,6 +200,30 @@ func (in *inliner) stmt(fn *Fn, st ast.Stmt) ([]ast.Stmt, bool) {
 			call = d.Call
 		} else {
 			call = s.(*ast.GoStmt).Call
+		}
+		// `defer h(args)` / `go h(args)` with an expandable helper: read it as `defer func() { <h expanded> }()`
+		if _, isLit := call.Fun.(*ast.FuncLit); !isLit {
+			if h := in.target(fn, call); h != nil {
+				if body, ok := in.expand(fn, h, call, nil, token.ILLEGAL, "stmt"); ok {
+					blk, isBlk := body.(*ast.BlockStmt)
+					if !isBlk {
+						blk = &ast.BlockStmt{Lbrace: call.Pos(), List: []ast.Stmt{body}, Rbrace: call.End()}
+					}
+					nfl := &ast.FuncLit{Type: &ast.FuncType{Func: call.Pos(), Params: &ast.FieldList{Opening: call.Pos(), Closing: call.Pos()}}, Body: blk}
+					info.Types[nfl] = types.TypeAndValue{Type: types.NewSignatureType(nil, nil, nil, nil, nil, false)}
+					in.doneLits[nfl] = true
+					ncall := &ast.CallExpr{Fun: nfl, Lparen: call.Lparen, Rparen: call.Rparen}
+					info.Types[ncall] = types.TypeAndValue{Type: types.NewTuple()}
+					if d, ok := s.(*ast.DeferStmt); ok {
+						cp := *d
+						cp.Call = ncall
+						return []ast.Stmt{&cp}, true
+					}
+					cp := *(s.(*ast.GoStmt))
+					cp.Call = ncall
+					return []ast.Stmt{&cp}, true
+				}
+			}
 		}
 		if fl, ok := call.Fun.(*ast.FuncLit); ok {
 			if b, c := in.block(fn, fl.Body); c {
@@ -544,7 +569,15 @@ func (in *inliner) expand(fn *Fn, h *Fn, call *ast.CallExpr, lhs []ast.Expr, tok
 			atok = token.ASSIGN
 		}
 		var ok bool
+		savedU := in.unified
+		in.unified = map[*types.Var]ast.Expr{}
+		for i := 0; i < sig.Results().Len(); i++ {
+			if e, ok := subst[sig.Results().At(i)]; ok {
+				in.unified[sig.Results().At(i)] = e
+			}
+		}
 		body, ok = in.tail(hi, hb.List, true, target, atok, sig, pos)
+		in.unified = savedU
 		if !ok {
 			return nil, false
 		}
@@ -635,13 +668,27 @@ func (in *inliner) tail(hi *types.Info, list []ast.Stmt, tailPos bool, lhs []ast
 				return nil, false
 			}
 			results := s.Results
+			lhs := lhs
 			if len(results) == 0 && sig.Results().Len() > 0 {
-				// bare return with named results
+				// bare return with named results; a result that IS the caller's target variable needs no copy
+				var keep []ast.Expr
 				for k := 0; k < sig.Results().Len(); k++ {
 					rv := sig.Results().At(k)
+					if _, same := in.unified[rv]; same && len(lhs) == sig.Results().Len() {
+						continue
+					}
 					id := &ast.Ident{NamePos: pos, Name: rv.Name()}
 					hi.Uses[id] = rv
 					results = append(results, id)
+					if len(lhs) == sig.Results().Len() {
+						keep = append(keep, lhs[k])
+					}
+				}
+				if len(lhs) == sig.Results().Len() {
+					lhs = keep
+					if len(lhs) == 0 {
+						continue
+					}
 				}
 			}
 			if len(lhs) > 0 {
